@@ -461,7 +461,7 @@ def candidate_contract(item):
     # fuel accounting (R10): descending chain of entry requirements, grids of no-progress / after-last-bump bounds
     c['requires'] += ['old(%s).fuel >= %d' % (v, k) for k in (1, 2, 3, 4, 6, 8, 10)]
     c['ensures'] += ['final(%s).pos == old(%s).pos ==> final(%s).fuel >= old(%s).fuel - %d' % (v, v, v, v, n) for n in (0, 1, 2, 3, 4, 6, 8, 10)]
-    c['ensures'] += ['final(%s).pos > old(%s).pos ==> final(%s).fuel >= FUEL - (%d + 9 * (MAX_DEPTH + 1 - old(%s).depth))' % (v, v, v, a, v)
+    c['ensures'] += ['final(%s).pos > old(%s).pos ==> final(%s).fuel >= VFUEL - (%d + 9 * (MAX_DEPTH + 1 - old(%s).depth))' % (v, v, v, a, v)
                      for a in (0, 1, 2, 3, 4, 6, 8, 10, 12, 16)]
     for m in marks:
         c['fixed_requires'] += ['open_at(*old(%s), %s)' % (v, m), 'depth(old(%s).events@) >= 2' % v]
@@ -573,7 +573,7 @@ def assemble(ex, prelude, fns_spec, loops_spec, stubs, top=None, inferred=None, 
     chunks = []   # (text, item or None)
     chunks.append(('use vstd::prelude::*;\nverus! {\n', None))
     chunks.append((stubs + '\n', None))
-    chunks.append(('spec const FUEL: int = %d; // the literal Parser::bump resets the progress-guard fuel to (R10)\n' % ex['fuel_reset'], None))
+    chunks.append(('spec const VFUEL: int = %d; // the literal Parser::bump resets the progress-guard fuel to (R10)\n' % ex['fuel_reset'], None))
     chunks.append((prelude + '\n', None))
     items = ex['items']
     if not with_bt:
